@@ -445,13 +445,14 @@ impl Ctx {
         // their quick tiers finish in a few seconds, so the seeded/random streams of the
         // quick tier are scaled up per property (never beyond the thorough size).
         let scale: u64 = match self.prop.as_str() {
-            "C02" | "C13" | "C19" => 8,
-            "C03" => 6,
-            "C12" | "C17" => 4,
-            "C04" | "C05" | "C11" => 3,
-            "C07" | "C08" | "C09" | "C15" => 2,
-            "C14" | "C16" => 5,
-            "C18" => 10,
+            "C02" | "C13" => 16,
+            "C03" => 12,
+            "C14" | "C16" | "C18" => 10,
+            "C07" | "C09" | "C19" => 8,
+            "C05" | "C11" => 6,
+            "C08" | "C10" | "C12" | "C17" => 4,
+            "C04" | "C06" => 3,
+            "C15" | "C20" => 2,
             _ => 1,
         };
         let n = if self.quick() { q.saturating_mul(scale).min(t.max(q)) } else { t };
